@@ -159,12 +159,17 @@ impl Parser for Markdown {
                 .difference(pulldown_cmark::Options::ENABLE_SMART_PUNCTUATION),
         );
 
-        let mut tokens = Vec::new();
+        let mut tokens: Vec<Token> = Vec::new();
 
         let mut traversed_bytes = 0;
         let mut traversed_chars = 0;
 
         let mut stack = Vec::new();
+
+        // The end (in chars) of the tokens pushed so far.  `pulldown_cmark` can report the same
+        // source range twice (the events after `[[a|]]`): an event that makes a token covering
+        // characters is skipped when it starts before that end.
+        let mut covered_until = 0;
 
         // NOTE: the range spits out __byte__ indices, not char indices.
         // This is why we keep track above.
@@ -172,6 +177,26 @@ impl Parser for Markdown {
             if range.start > traversed_bytes {
                 traversed_chars += source_str[traversed_bytes..range.start].chars().count();
                 traversed_bytes = range.start;
+            }
+
+            if let Some(last) = tokens.last() {
+                covered_until = covered_until.max(last.span.end);
+            }
+
+            if traversed_chars < covered_until
+                && matches!(
+                    event,
+                    pulldown_cmark::Event::SoftBreak
+                        | pulldown_cmark::Event::HardBreak
+                        | pulldown_cmark::Event::InlineMath(_)
+                        | pulldown_cmark::Event::DisplayMath(_)
+                        | pulldown_cmark::Event::Code(_)
+                        | pulldown_cmark::Event::Text(_)
+                        | pulldown_cmark::Event::Html(_)
+                        | pulldown_cmark::Event::InlineHtml(_)
+                )
+            {
+                continue;
             }
 
             match event {
